@@ -27,6 +27,10 @@ pub fn exec(rest: &str, out: &mut Out) -> (String, bool) {
     out.oracle(y.unordered_eq(&x) == r, "symmetric", || format!("{} vs {}", r, y.unordered_eq(&x)));
     out.oracle(x.unordered_eq(&x), "reflexive", || String::new());
     out.oracle(!(x == y) || r, "implied by ordinary equality", || String::new());
+    {
+        let xr = crate::ord::rebuilt(&x);
+        out.oracle(xr.unordered_eq(&y) == r && y.unordered_eq(&xr) == r && xr.unordered_eq(&x), "content only: a value rebuilt with heap-backed buffers compares the same", || String::new());
+    }
     out.oracle((x.as_unordered() == y.as_unordered()) == r && (Unordered(x.clone()) == Unordered(y.clone())) == r, "Unordered<T> wrappers agree", || String::new());
     out.count(if r { "equal" } else { "different" });
     if r && x != y { out.count("equal_but_reordered"); }
